@@ -2,7 +2,7 @@
 
 Families (all are Hypothesis value strategies; the case is plain JSON)
   default     `create_default_warper(...)` with every admissible flag
-              combination (all-True = what gp_bandit / gp_ucb_pe use, 55 %).
+              combination (all-True = what gp_bandit / gp_ucb_pe use, 57 %).
   outliers    `create_warp_outliers_warper(...)` flag combinations in which no
               NaN-producing stage is followed directly by the NaN-intolerant
               TransformToGaussian; jax x64 on and off.
@@ -36,6 +36,20 @@ Oracle clauses (bucket prefix)
   interval   NormalizeLabels: feasible outputs inside target_interval
   roundtrip  unwarp(warp(y)) == y at feasible positions within
              1e-9*(max|y| + range) for the warpers that implement unwarp
+
+Bucket = '<clause>/<warper kind>/<symptom>'.  Four symptoms are signatures of
+defects present on the unchanged tree (known_findings.d/C18.jsonl) and are
+computed from the input/output only, so that any other failure of the same
+clause keeps its generic symptom (`off_value`, `distinct_merged`, ...):
+  below_median_lost_with_infeasible_present  a feasible value below the median
+      comes out NaN / equal to the infeasible value while other entries are
+      infeasible and a HalfRank stage is present
+  dup_median_noop   round trip returns a value in [median(unique), median(all))
+      for a label below median(all)  (only possible with duplicates)
+  snapped_to_lowest_observed   round trip returns the lowest or second lowest
+      observed value for another label
+  huge_constant_into_gaussian  all-NaN output of a pipeline ending in
+      TransformToGaussian when the largest feasible value has |v| >= 2**53
 """
 import traceback
 
@@ -605,11 +619,16 @@ def _roundtrip(out, case, kind, tr, y, w, fin, lost, warper, med):
                       pos[i], Y[i], w[sel][i], u[i], tol, case['y']))
 
 
+# the tfp import alone costs 15-25 s of a shrink worker's time cap
+SHRINK = {'quick': 75, 'thorough': 240}
+
+
 def families(tier):
   return [
       core.Family('default', check, strategy=default_strategy,
                   budget={'quick': 3200, 'thorough': 100000},
                   shards={'quick': 6, 'thorough': 16},
+                  max_shrink_s=SHRINK,
                   required_classes=(
                       'k:default_TTT', 'k:default_TFT', 'k:default_FTT',
                       'k:default_TTF', 'k:default_FFT', 'nontrivial',
@@ -621,6 +640,7 @@ def families(tier):
       core.Family('outliers', check, strategy=outliers_strategy,
                   budget={'quick': 640, 'thorough': 16000},
                   shards={'quick': 4, 'thorough': 16},
+                  max_shrink_s=SHRINK,
                   required_classes=(
                       'k:outliers_TTT', 'k:outliers_FTT', 'k:outliers_TFF',
                       'k:outliers_FFT', 'nontrivial', 'has_outlier',
@@ -628,6 +648,7 @@ def families(tier):
       core.Family('components', check, strategy=components_strategy,
                   budget={'quick': 2400, 'thorough': 60000},
                   shards={'quick': 6, 'thorough': 16},
+                  max_shrink_s=SHRINK,
                   required_classes=(
                       'k:halfrank', 'k:log', 'k:infeasible', 'k:detect',
                       'k:gauss', 'k:gauss_rank', 'k:zscore', 'k:normalize',
